@@ -14,6 +14,7 @@ package service
 //@ func SchemesData.Append
 //@   params s d
 //@   property C06
+//@   locals found:bool se:*service.SchemeData
 //@   requires d != nil
 //@   ensures* listed: exists k int :: 0 <= k && k < len(result) && result[k].SchemeName == d.SchemeName
 //@   ensures* kept: len(result) >= len(s) && len(result) <= len(s) + 1 && (forall i int :: 0 <= i && i < len(s) ==> result[i] == old(s[i]))
@@ -24,7 +25,6 @@ package service
 
 //@ func buildMethodData
 //@   params m scope
-//@   locals rs req schemes
 //@   opt forget-before-loop 2
 //@   opt inline none
 //@   property C06
@@ -53,6 +53,7 @@ package service
 // a range over a map appearing anywhere else in the package is reported.
 //@ maprange-census property C09: (*Data).initUserTypeImports=2 Files=2
 //@ func ConvertFile
+//@   params root service
 //@   opt maprange deterministic
 //@   opt inline none
 //@   opt loopframes none
